@@ -139,7 +139,17 @@ impl QueryComputing {
     }
 
     pub fn abort_callee(&self, callee: &QueryID) {
-        assert!(self.callee_info.callee_queries.remove_sync(callee).is_some());
+        // Reads of the same callee (repeated or concurrent ones) share one
+        // registration. Only undo a registration that no read has completed
+        // yet, and tolerate that another aborted read has already undone it.
+        if self
+            .callee_info
+            .callee_queries
+            .remove_if_sync(callee, |observation| observation.is_none())
+            .is_none()
+        {
+            return;
+        }
 
         let mut callee_order = self.callee_info.callee_order.write();
 
@@ -165,16 +175,24 @@ impl QueryComputing {
         seen_value_fingerprint: Compact128,
         seen_transitive_firewall_callees_fingerprint: Compact128,
     ) {
-        let mut callee_observation = self
-            .callee_info
-            .callee_queries
-            .get_sync(callee_target_id)
-            .expect("callee should have been registered");
-
-        *callee_observation = Some(Observation {
+        let observation = Observation {
             seen_value_fingerprint,
             seen_transitive_firewall_callees_fingerprint,
-        });
+        };
+
+        match self.callee_info.callee_queries.entry_sync(*callee_target_id) {
+            Entry::Occupied(mut entry) => {
+                *entry.get_mut() = Some(observation);
+            }
+
+            // the registration was undone by an aborted read of the same
+            // callee while this read was still in flight; register it again
+            Entry::Vacant(entry) => {
+                entry.insert_entry(Some(observation));
+
+                self.callee_info.callee_order.write().push(*callee_target_id);
+            }
+        }
     }
 
     pub const fn query_kind(&self) -> QueryKind { self.query_kind }
